@@ -137,6 +137,26 @@ class Ctx:
             return res, cases
         return res
 
+    def apalache(self, module, *, init, inv, length, label, timeout=600):
+        """Symbolic check with Apalache (bounded in the length of the computation, not in the values): used for inductive invariants -
+        `init` = the invariant itself (with Gen(n) for the set-valued variables), length 1 = one arbitrary step."""
+        import subprocess
+
+        mod = T.SPEC / module
+        out = os.path.join(self.scratch, "apalache_" + label.replace(" ", "_").replace("/", "_"))
+        t0 = time.time()
+        try:
+            r = subprocess.run(["apalache-mc", "check", f"--init={init}", f"--inv={inv}", f"--length={length}", f"--out-dir={out}", mod.name],
+                               cwd=str(mod.parent), capture_output=True, text=True, timeout=timeout)
+        except (subprocess.TimeoutExpired, FileNotFoundError) as ex:
+            raise MachineryError(f"Apalache {label}: {type(ex).__name__}") from None
+        ok = "The outcome is: NoError" in r.stdout
+        self.m_runs.append({"model": f"Apalache {label}", "init": init, "inv": inv, "length": length, "wall_s": round(time.time() - t0, 2),
+                            "result": "no error" if ok else "error"})
+        shutil.rmtree(out, ignore_errors=True)
+        if not ok:
+            raise MachineryError(f"Apalache {label}: {r.stdout[-800:]}")
+
     def validate(self, module, events, cfg=None, *, meta=None, batch=4000, timeout=900, env=None,
                  procs=8, tag="V"):
         """V: TLC reads the recorded events and prints one verdict per event.
